@@ -6,11 +6,15 @@ package c43
 
 import (
 	"fmt"
+	"hash/fnv"
 	"iter"
 	"net/url"
+	"slices"
 	"sort"
+	"strconv"
 	"strings"
 	"sync"
+	"sync/atomic"
 	"testing"
 	"time"
 
@@ -81,7 +85,7 @@ func (q Req) form() (string, url.Values) {
 		if q.Label == "" {
 			return "/api/v1/labels", f
 		}
-		return "/api/v1/label/" + q.Label + "/values", f
+		return "/api/v1/label/" + url.PathEscape(q.Label) + "/values", f
 	default:
 		return "/api/v1/series", f
 	}
@@ -135,10 +139,31 @@ func differ(a, b Req) []string {
 	if a.Kind == 1 && b.Kind == 1 {
 		add(a.Label != b.Label, "label-name")
 	}
-	add(strings.Join(a.Matchers, "\x00") != strings.Join(b.Matchers, "\x00"), "matchers")
-	add(strings.Join(sortedCopy(a.Replicas), "\x00") != strings.Join(sortedCopy(b.Replicas), "\x00"), "replica-labels")
+	add(!slices.Equal(a.Matchers, b.Matchers), "matchers")
+	add(!slices.Equal(sortedCopy(a.Replicas), sortedCopy(b.Replicas)), "replica-labels") // [""] and [] differ
 	add(a.Partial != b.Partial, "partial-response")
 	return d
+}
+
+// nonEmpty is the sorted list without empty labels.
+func nonEmpty(s []string) []string {
+	var c []string
+	for _, x := range sortedCopy(s) {
+		if x != "" {
+			c = append(c, x)
+		}
+	}
+	return c
+}
+
+// seriesKeyIgnoresReplicas probes the real generator: does the key of this series request stay the same when
+// its replica labels are replaced by none and by an ordinary one?
+func seriesKeyIgnoresReplicas(q Req) bool {
+	q.Replicas = nil
+	k0, _, _ := keyOf(q)
+	q.Replicas = []string{"zz"}
+	k1, _, _ := keyOf(q)
+	return k0 == k1
 }
 
 func has(d []string, x string) bool {
@@ -166,38 +191,99 @@ func stringsOver(alpha string, lo, hi int) []string {
 var matcherPool = [][]string{
 	nil,
 	{`{a="b"}`},
-	{`{a="b"}`, `{c="d"}`},            // two sets
-	{`{a="b",c="d"}`},                 // one set, two matchers
-	{`{a="b\"] [c=\"d"}`},             // value imitating the separator between sets
-	{`{a="b\" c=\"d"}`},               // value imitating the separator inside a set
+	{`{a="b"}`, `{c="d"}`},                // two sets
+	{`{a="b",c="d"}`},                     // one set, two matchers
+	{`{a="b\"] [c=\"d"}`},                 // value imitating the separator between sets
+	{`{a="b\" c=\"d"}`},                   // value imitating the separator inside a set
 	{`{a=":"}`}, {`{a="b:"}`, `{c=":d"}`}, // field separator inside values
+	{`{a="b\\"}`, `{c="d"}`}, // value ending in the quoting escape character, then the set separator
+	{`{a="b\\\"] [c=\"d"}`},  // ... and its imitation inside one value
+	{`{a="b\\",c="d"}`},      // same for the separator inside a set
+	{`{a="b\\\" c=\"d"}`},
+}
+
+// matcherSets yields every match[] list made of one selector with one matcher, two selectors, or one selector
+// with two matchers, the values ranging over all strings of length <= 2 over the characters the rendering
+// of [][]*labels.Matcher uses (quote, its escape character, the blank between matchers, the bracket between
+// sets) and the key's own separators.
+func matcherSets() [][]string {
+	vals := stringsOver("b\"\\ ]:,", 0, 2)
+	sel := func(v string) string { return "{a=" + strconv.Quote(v) + "}" }
+	var out [][]string
+	for _, v := range vals {
+		out = append(out, []string{sel(v)})
+	}
+	for _, v := range vals {
+		for _, w := range vals {
+			out = append(out, []string{sel(v), "{c=" + strconv.Quote(w) + "}"})
+			out = append(out, []string{"{a=" + strconv.Quote(v) + ",c=" + strconv.Quote(w) + "}"})
+		}
+	}
+	return out
+}
+
+// Alphabets. The key is "fe:" + fields joined by ':'; replica labels are joined by ','; tenant and replica
+// labels are escaped with a backslash (escape character). Every free-text ingredient is drawn from an alphabet holding
+// both separators AND the escape character, so that "escape character at the end of a field, then a separator"
+// meets "escaped separator inside a field" if the escaping is not injective.
+const (
+	tenantAlpha  = "a:,|-1\\"     // '|' joins tenant ids, '-' is "no shard", a digit imitates numeric fields; the resolver rejects the backslash
+	queryAlpha   = "a:1-{}\",\\`" // a raw string `\` in backquotes is the shortest PromQL expression holding the escape character
+	replicaAlpha = "ab:,\\"
+	labelAlpha   = "a:,\\"
+	engineAlpha  = "a:,\\"
+)
+
+// replicaLists yields every list of at most two replica labels, each label a string of length 0..3 over
+// replicaAlpha (both orders of a pair, the same label twice, and the empty label included).
+func replicaLists() [][]string {
+	labels := stringsOver(replicaAlpha, 0, 3)
+	out := [][]string{nil}
+	for _, a := range labels {
+		out = append(out, []string{a})
+	}
+	for _, a := range labels {
+		for _, b := range labels {
+			out = append(out, []string{a, b})
+		}
+	}
+	return out
 }
 
 func gen(r *vlib.R) iter.Seq[Case] {
-	// separators used by the key: ':' between fields, ',' between replica labels, '|' between tenant ids,
-	// '-' for "no shard", a digit to imitate numeric fields.
-	tenantsAll := stringsOver("a:,|-1", 1, vlib.Pick(r, 2, 3))
+	tenantsAll := stringsOver(tenantAlpha, 1, vlib.Pick(r, 2, 3))
 	tenantsFew := []string{"a", "a:a"}
-	var queries []string
-	for _, s := range stringsOver("a:1-{}\",", 1, 3) {
-		if _, err := parser.ParseExpr(s); err == nil {
+	parses := func(s string) bool { _, err := parser.ParseExpr(s); return err == nil }
+	var queries, queriesE []string
+	for _, s := range stringsOver(queryAlpha, 1, 3) {
+		if parses(s) {
 			queries = append(queries, s)
 		}
 	}
-	r.Set("parseable_queries", len(queries))
-	r.Set("tenants", len(tenantsAll))
+	for _, s := range stringsOver("a:", 1, 3) {
+		if parses(s) {
+			queriesE = append(queriesE, s)
+		}
+	}
 	queriesFew := []string{"a", "a:a"}
-	replicaSets := [][]string{nil, {"a"}, {"b"}, {"a", "b"}, {"b", "a"}, {"a,b"}, {"a:"}}
+	replicaSets := [][]string{nil, {"a"}, {"b"}, {"a", "b"}, {"b", "a"}, {"a,b"}, {"a:"}, {`a\`}, {`a\`, "b"}, {`a\,b`}, {""}}
+	replicaAll := replicaLists()
 	shards := [][2]int64{{0, 0}, {2, 0}, {2, 1}, {12, 1}, {1, 21}}
 	msrs := []string{"", "299999ms", "300000ms", "3599999ms", "3600000ms", "auto"}
-	labelNames := stringsOver("a:", 0, 2)
+	labelNames := stringsOver(labelAlpha, 0, 2)
+	engines := stringsOver(engineAlpha, 0, 2)
+	matchersAll := matcherSets()
+	r.Set("parseable_queries", len(queries))
+	r.Set("tenants", len(tenantsAll))
+	r.Set("replica_label_lists", len(replicaAll))
+	r.Set("matcher_sets", len(matchersAll))
 	return func(yield func(Case) bool) {
 		// family A: every tenant x every parseable query x the parameters next to free-text fields
 		for _, tn := range tenantsAll {
 			for _, q := range queries {
 				for _, st := range []int64{1000, 60000} {
 					for _, sh := range shards[:3] {
-						for _, rl := range [][]string{nil, {"a"}, {"a", "b"}, {"a,b"}} {
+						for _, rl := range [][]string{nil, {"a"}, {"a", "b"}, {"a,b"}, {`a\`, "b"}} {
 							if !yield(Case{A: Req{Kind: 0, Tenant: tn, Query: q, StepMs: st, Shard: sh, Replicas: rl}}) {
 								return
 							}
@@ -246,6 +332,37 @@ func gen(r *vlib.R) iter.Seq[Case] {
 				}
 			}
 		}
+		// family R: every replica-label list (<= 2 labels of length <= 3 over {a b : , \}) on a range and on a series request
+		for _, rl := range replicaAll {
+			if !yield(Case{A: Req{Kind: 0, Tenant: "a", Query: "a", StepMs: 1000, Replicas: rl}}) {
+				return
+			}
+			if !yield(Case{A: Req{Kind: 2, Tenant: "a", Matchers: matcherPool[1], Replicas: rl}}) {
+				return
+			}
+		}
+		// family E: the engine as the free text it is for the frontend (a querier rejects unknown engines), next to
+		// its neighbours in the key: query on the far left, partial response / replica labels / analyze on the right
+		for _, q := range queriesE {
+			for _, eng := range engines {
+				for _, rl := range [][]string{nil, {"a"}, {"true"}, {`a\`, "b"}} {
+					for f := 0; f < 4; f++ {
+						if !yield(Case{A: Req{Kind: 0, Tenant: "a", Query: q, StepMs: 1000, Engine: eng, Replicas: rl, Partial: f&1 != 0, Analyze: f&2 != 0}}) {
+							return
+						}
+					}
+				}
+			}
+		}
+		// family M: every matcher list of matcherSets on label names, label values and series requests
+		for _, m := range matchersAll {
+			for _, c := range []Req{{Kind: 1}, {Kind: 1, Label: "a"}, {Kind: 1, Label: `a\`}, {Kind: 2}, {Kind: 2, Replicas: []string{`a\`, "b"}}} {
+				c.Tenant, c.Matchers = "a", m
+				if !yield(Case{A: c}) {
+					return
+				}
+			}
+		}
 	}
 }
 
@@ -257,19 +374,30 @@ func keyOf(q Req) (string, bool, error) {
 func TestCheck(t *testing.T) {
 	r := vlib.New(t, "C43")
 	defer r.Finish()
-	r.Rule("A: tenants (len<=2, thorough 3, over {a : , | - 1}, accepted by the resolver) x all parseable PromQL strings len<=3 over {a : 1 - { } \" ,} x step x shard x replica sets; " +
-		"B: 2 tenants x 2 queries x full product step x max_source_resolution (each side of 5m/1h, auto) x shard x lookback x engine x replica sets x partial x analyze; " +
-		"C: tenants x label names over {a :} len<=2 x 8 matcher sets x partial; D: series: tenants x matcher sets x replica sets x partial. " +
-		"All keys in one table. non-trivial = distinct requests whose tenant, query, label name or a replica label contains a separator character")
+	r.Rule("A: tenants (len<=2, thorough 3, over {a : , | - 1 \\}, those accepted by the resolver) x all parseable PromQL strings len<=3 over {a : 1 - { } \" , \\ `} x step x shard x replica sets; " +
+		"B: 2 tenants x 2 queries x full product step x max_source_resolution (each side of 5m/1h, auto) x shard x lookback x engine x 11 replica sets x partial x analyze; " +
+		"C: tenants x label names over {a : , \\} len<=2 x 12 matcher sets x partial; D: series: tenants x matcher sets x replica sets x partial; " +
+		"R: every list of <=2 replica labels, each of length 0..3 over {a b : , \\}, on a range and on a series request; " +
+		"E: engine as free text over {a : , \\} len<=2 x queries over {a :} x replica sets x partial x analyze; " +
+		"M: matcher lists (1 selector, 2 selectors, 1 selector with 2 matchers) with values len<=2 over {b \" \\ blank ] : ,} on label names / label values / series. " +
+		"All keys in one table. non-trivial = distinct requests whose tenant, query, label name, engine, a matcher or a replica label contains a separator or escape character")
 	r.Assume("tenant = value of the tenant header as injected by cmd/thanos (extractOrgId), validated by the real tenant resolver",
-		"engine restricted to the values a querier accepts (\"\", prometheus, thanos); shard_info By/Labels of a client-supplied shard_info are not varied",
-		"partial_response differing between two labels or two series requests is only noted: answers with store warnings carry Cache-Control: no-store and are never cached, so it cannot change a cached answer")
+		"outside family E the engine is restricted to the values a querier accepts (\"\", prometheus, thanos); shard_info By/Labels of a client-supplied shard_info are not varied",
+		"partial_response differing between two labels or two series requests is only noted: answers with store warnings carry Cache-Control: no-store and are never cached, so it cannot change a cached answer",
+		"replicaLabels[]= (one empty label) and no replicaLabels[] at all are different requests: the frontend forwards the former and a querier then replaces its configured replica labels by [\"\"]")
 
+	// one table of all keys, split by key hash into independently locked parts so that the workers do not queue
+	type part struct {
+		mu sync.Mutex
+		m  map[string]*Req
+	}
 	var (
-		mu    sync.Mutex
-		table = map[string]int32{}
-		reqs  = make([]Req, 0, vlib.Pick(r, 1<<17, 1<<19))
+		table                          [256]part
+		seen, rejected, uncached, dups atomic.Int64
 	)
+	for i := range table {
+		table[i].m = map[string]*Req{}
+	}
 	report := func(a, b Req, key string) {
 		d := differ(a, b)
 		if len(d) == 0 {
@@ -287,23 +415,29 @@ func TestCheck(t *testing.T) {
 			r.Violation("cross-tenant-key-collision-"+[]string{"range", "labels", "series"}[a.Kind], desc, c)
 		case first == "partial-response" && a.Kind != 0:
 			r.Add("metadata_pairs_differing_only_in_partial_response", 1)
-		case first == "replica-labels" && a.Kind == 2:
+		case first == "replica-labels" && a.Kind == 2 && seriesKeyIgnoresReplicas(a):
 			r.Violation("series-key-omits-replica-labels", desc, c)
+		case first == "replica-labels" && slices.Equal(nonEmpty(a.Replicas), nonEmpty(b.Replicas)):
+			r.Violation("replica-labels-empty-label-same-key-as-none", desc, c)
 		case first == "replica-labels" && strings.Join(sortedCopy(a.Replicas), ",") == strings.Join(sortedCopy(b.Replicas), ","):
 			r.Violation("replica-labels-comma-ambiguity", desc, c)
+		case first == "replica-labels" && strings.Contains(strings.Join(a.Replicas, "")+strings.Join(b.Replicas, ""), `\`):
+			r.Violation("replica-labels-escape-character-ambiguity", desc, c)
 		default:
 			r.Violation("param-collision:"+first, desc, c)
 		}
 	}
 	vlib.ForEach(r, gen(r), func(c Case) {
-		r.Sample(c)
+		if seen.Add(1) < 20000 { // vlib keeps samples among the first 16807 cases only
+			r.Sample(c)
+		}
 		ka, ok, err := keyOf(c.A)
 		if err != nil {
-			r.Add("rejected_by_frontend", 1)
+			rejected.Add(1)
 			return
 		}
 		if !ok {
-			r.Add("not_cacheable", 1)
+			uncached.Add(1)
 			return
 		}
 		if c.B != nil { // replay of a pair
@@ -313,24 +447,30 @@ func TestCheck(t *testing.T) {
 			}
 			return
 		}
-		if strings.ContainsAny(c.A.Tenant+c.A.Query+c.A.Label+strings.Join(c.A.Replicas, ""), ":,|-") {
+		if strings.ContainsAny(c.A.Tenant+c.A.Query+c.A.Label+c.A.Engine+strings.Join(c.A.Replicas, "")+strings.Join(c.A.Matchers, ""), ":,|-\\") {
 			r.Nontrivial(ka + "\x00" + c.A.Tenant + "\x00" + strings.Join(c.A.Replicas, "\x00"))
 		}
-		mu.Lock()
-		idx, dup := table[ka]
+		h := fnv.New32a()
+		h.Write([]byte(ka))
+		pt := &table[h.Sum32()%uint32(len(table))]
+		pt.mu.Lock()
+		other, dup := pt.m[ka]
 		if !dup {
-			table[ka] = int32(len(reqs))
-			reqs = append(reqs, c.A)
+			first := c.A
+			pt.m[ka] = &first
 		}
-		var other Req
+		pt.mu.Unlock()
 		if dup {
-			other = reqs[idx]
-		}
-		mu.Unlock()
-		if dup {
-			r.Add("requests_sharing_a_key_with_an_earlier_one", 1)
-			report(other, c.A, ka)
+			dups.Add(1)
+			report(*other, c.A, ka)
 		}
 	})
-	r.Set("distinct_keys", len(table))
+	keys := 0
+	for i := range table {
+		keys += len(table[i].m)
+	}
+	r.Set("distinct_keys", keys)
+	r.Set("rejected_by_frontend", rejected.Load())
+	r.Set("not_cacheable", uncached.Load())
+	r.Set("requests_sharing_a_key_with_an_earlier_one", dups.Load())
 }
